@@ -151,6 +151,7 @@ def make_case(family, i, rng, tier):
             it = ST.data_item(rng, rng.choice([0, 5, 130, 400]))
             it['inner'] = [[_ping(rng) for _ in range(rng.choice([0, 1, 1, 3]))]
                            for _ in it['inner']]
+            it['z'] = rng.random() < 0.75
             items.append(it)
     case = {'items': items, 'auto_pong': rng.random() < 0.75,
             'react': rng.random() < 0.6,
@@ -198,7 +199,17 @@ def build(case, with_fault=True):
     items = list(case['items'])
     if case.get('sclose'):
         items.append(dict(case['sclose'], kind='close'))
-    enc = ST.encode_items(items)
+    transform = None
+    if case.get('compress'):
+        # most data messages really are compressed (RSV1 on the first frame
+        # only), Pings travel between their fragments
+        dp = peer.DeflatePeer()
+
+        def transform(payload, it):
+            if it.get('z', True):
+                return dp.compress(payload), 1
+            return payload, 0
+    enc = ST.encode_items(items, transform=transform)
     if case.get('mode') == 'bad_tail':
         # a protocol violation right behind the Pings, in the same reads:
         # the Pings that came first must still be reported and answered
